@@ -827,3 +827,11 @@ def op_c09(case):
             ib = [t for t in py["toks"] if t[0] not in ("COMMENT", "NL")]
             r["diff"] = first_diff(ia, ib)
     return r
+
+
+def op_c10(case):
+    """f-string source: token streams and trees of both implementations"""
+    src = case["src"]
+    r = {"tok": op_c09({"src": src})}
+    r["tree"] = op_c01({"src": src, "mode": case.get("mode", "eval")})
+    return r
